@@ -1,0 +1,15 @@
+//go:build verif
+
+package transport
+
+// Contracts for the UDP transport (machine-checked by /verif/engine; see /verif/DESIGN.md s9 C13).
+
+// ---- transport.go: one datagram out, one in, both bounded by the context's deadline
+
+//@ func (*transport).Send
+//@ props C13 C05
+//@ requires [transport.conn] !isnil(t) && !isnil(t.conn) && !isnil(ctx)
+//@ at net.conn).Write assert [C13.write-deadline] ctxHasDeadline(ctx) ==> socketDeadlineIs(t.conn, "Write", ctx)
+//@ at ReadFromUDP assert [C13.read-deadline] ctxHasDeadline(ctx) ==> socketDeadlineIs(t.conn, "Read", ctx)
+//@ ensures [C05.recv-window] result1 == nil ==> len(result0) <= 512
+//@ ensures [C13.error-no-data] result1 != nil ==> isnil(result0)
